@@ -40,14 +40,19 @@ def events_dump(g) -> str:
                      impl.sec("LY", [impl.show_val(e) for e in g.lyric_events])])
 
 
+def meta_dump(md) -> str:
+    return "META " + " ".join(impl.show_field(getattr(md, f)) for f in impl.field_order())
+
+
 def track_dump(tr) -> str:
     ins, dif = impl.enums()
     return "|".join(impl.dump_track(0, 0, tr, ins, dif)[1:])
 
 
 def run(ctx: fw.Ctx, out: fw.Outcome, section: str, prof: gen.Profile, n_quick=40, n_thorough=4000):
-    """section: 'sync' | 'events' | 'instrument'"""
+    """section: 'song' | 'sync' | 'events' | 'instrument' | 'all'"""
     from chartparse.globalevents import GlobalEventsTrack
+    from chartparse.metadata import Metadata
     from chartparse.instrument import InstrumentTrack
     from chartparse.sync import SyncTrack
 
@@ -63,13 +68,15 @@ def run(ctx: fw.Ctx, out: fw.Outcome, section: str, prof: gen.Profile, n_quick=4
             continue  # the chart-level families report that
         secs = dict(R.sections)
         bodies = []
-        if section == "sync":
+        if section in ("song", "all"):
+            bodies.append(("Song", secs["Song"], meta_dump(c.metadata), lambda arg: meta_dump(Metadata.from_chart_lines(arg))))
+        if section in ("sync", "all"):
             bodies.append(("SyncTrack", secs["SyncTrack"], sync_dump(c.sync_track),
                            lambda arg: sync_dump(SyncTrack.from_chart_lines(c.metadata.resolution, arg))))
-        elif section == "events":
+        if section in ("events", "all"):
             bodies.append(("Events", secs["Events"], events_dump(c.global_events_track),
                            lambda arg: events_dump(GlobalEventsTrack.from_chart_lines(arg, c.sync_track.bpm_events))))
-        else:
+        if section in ("instrument", "all"):
             for tr in src.tracks[:2]:
                 tag = gen.header_tag(tr.inst, tr.diff)
                 real = c.instrument_tracks.get(ins[tr.inst], {}).get(dif[tr.diff])
@@ -80,7 +87,7 @@ def run(ctx: fw.Ctx, out: fw.Outcome, section: str, prof: gen.Profile, n_quick=4
         for tag, body, want, call in bodies:
             if any("\n" in l for l in body):
                 continue
-            for form in rng.sample(FORMS, 3):
+            for form in rng.sample(FORMS, 3 if section != "all" else 1):
                 rp = {"op": "direct-section", "section": section, "tag": tag, "text": R.text, "form": form}
                 out.case("X" + fw.h([R.text, tag, form]), True, None, tags=["direct-" + section + "-" + form])
                 try:
@@ -89,7 +96,7 @@ def run(ctx: fw.Ctx, out: fw.Outcome, section: str, prof: gen.Profile, n_quick=4
                     got = impl.err_name(ex)
                 if got != want:
                     p_, q_ = fw.first_diff(want, got)
-                    out.violation("direct-" + fw.h(rp), f"[{tag}] handed to from_chart_lines as {form} decodes differently from Chart.from_file: {p_[:120]!r} vs {q_[:120]!r}",
+                    out.violation("direct-" + fw.h(rp), f"the lines between the braces of [{tag}], handed to that section's own parser (as {form}), decode differently from what Chart.from_file made of the section: {p_[:120]!r} vs {q_[:120]!r}",
                                   rp, observed=q_[:300], promised=p_[:300])
                     break
 
@@ -111,9 +118,12 @@ def replay(data) -> tuple:
     body = lines[k + 2:j]
     arg = hand_over(body, data["form"])
     try:
-        if data["section"] == "sync":
+        if data["tag"] == "Song":
+            from chartparse.metadata import Metadata
+            want, got = meta_dump(c.metadata), meta_dump(Metadata.from_chart_lines(arg))
+        elif data["tag"] == "SyncTrack":
             want, got = sync_dump(c.sync_track), sync_dump(SyncTrack.from_chart_lines(c.metadata.resolution, arg))
-        elif data["section"] == "events":
+        elif data["tag"] == "Events":
             want, got = events_dump(c.global_events_track), events_dump(GlobalEventsTrack.from_chart_lines(arg, c.sync_track.bpm_events))
         else:
             i_, d_ = next((i, d) for i in range(len(ins)) for d in range(len(dif)) if gen.header_tag(i, d) == data["tag"])
